@@ -49,6 +49,40 @@ func runC07(c *Ctx) {
 			}
 		}
 	}
+	// an empty operand against a MULTI-item operand: still empty for the comparison and equality
+	// operators (the emptiness check comes before the singleton check)
+	for _, op := range []string{"<", "<=", ">", ">=", "=", "!="} {
+		for _, em := range empties {
+			for _, multi := range []string{"Patient.name.given", "%m"} {
+				for _, src := range []string{em + " " + op + " " + multi, multi + " " + op + " " + em} {
+					o := safeEval(func() (system.Collection, error) {
+						e, err := fhirpath.Compile(src)
+						if err != nil {
+							return nil, fmt.Errorf("compile: %w", err)
+						}
+						return e.Evaluate(input, evalopts.EnvVariable("e", system.Collection{}), evalopts.EnvVariable("m", system.Collection{system.Integer(1), system.Integer(2)}))
+					})
+					out := outTokens(o)
+					c.Observe("operator-empty-multi "+src, true)
+					c.Law(out == "ok:[]", "C07/operator-empty", "an empty operand yields an empty result", src, out)
+				}
+			}
+		}
+	}
+	// string functions with an empty argument, for receivers shorter and longer than the other argument
+	for _, recv := range []string{"''", "'a'", "'ab'", "'abcdef'", "Patient.name.family"} {
+		for _, other := range []string{"'a'", "'abc'", "'zzzzzzzz'", "''"} {
+			for _, em := range empties {
+				for _, src := range []string{recv + ".replace(" + other + ", " + em + ")", recv + ".replace(" + em + ", " + other + ")", recv + ".replaceMatches(" + other + ", " + em + ")", recv + ".replaceMatches(" + em + ", " + other + ")",
+					recv + ".substring(" + em + ", 1)", recv + ".substring(0, " + em + ")", recv + ".indexOf(" + em + ")", recv + ".startsWith(" + em + ")", recv + ".endsWith(" + em + ")", recv + ".contains(" + em + ")", recv + ".matches(" + em + ")"} {
+					o := evalSrc(src)
+					out := outTokens(o)
+					c.Observe("string-empty-argument "+src, true)
+					c.Law(out == "ok:[]" || strings.HasPrefix(out, "err:"), "C07/empty-argument-fabricates", "an empty argument where a single value is required yields empty or an error", src, out)
+				}
+			}
+		}
+	}
 	for _, em := range empties {
 		for _, src := range []string{em + " is Patient", em + " is System.String", em + " as Patient", em + " as HumanName", "-" + "(" + em + ")", "(" + em + ")[0]", "Patient.name[" + em + "]", "(" + em + ")[" + em + "]"} {
 			if strings.HasPrefix(src, "-") && em == "{}" {
